@@ -237,12 +237,29 @@ def part_sequences(args):
                      ((own_sid, 0x7777, 1, 2, own_major, 0x00, 0, b""), False), ((own_sid ^ 0x0101, 1, 1, 2, own_major, 0x00, 0, b""), False),
                      ((own_sid, 1, 1, 2, (own_major + 1) & 0xFF, 0x00, 0, b""), False), ((own_sid, 1, 1, 2, own_major, 0x80, 0, b""), False),
                      ((own_sid, 1, 1, 2, own_major, 0x00, 1, b""), False), ((own_sid, 2, 1, 2, own_major, 0x02, 0, b""), False),
-                     ((own_sid, 1, 3, 4, own_major, 0x01, 0, b"zz"), False), ((own_sid, 3, 3, 4, own_major, 0x01, 0, b""), True)]
+                     ((own_sid, 1, 3, 4, own_major, 0x01, 0, b"zz"), False), ((own_sid, 3, 3, 4, own_major, 0x01, 0, b""), True),
+                     # the transport reports an error for an earlier datagram (ICMP port unreachable, another OS error):
+                     # the next request is answered all the same
+                     ("error", "ConnectionRefusedError"), ("error", "OSError")]
         for ln in range(2, maxlen + 1):
             for seq in itertools.product(range(len(alphabet)), repeat=ln):
                 s = make(loop, own_sid, own_major, with_subscriber)
                 n += 1
                 for pos, li in enumerate(seq):
+                    if alphabet[li][0] == "error":
+                        s.transport.sent.clear()
+                        try:
+                            s.error_received({"ConnectionRefusedError": ConnectionRefusedError, "OSError": OSError}[alphabet[li][1]](111, "x"))
+                        except Exception as e:  # noqa: BLE001
+                            res.append(("no-exception", "error_received-" + type(e).__name__, f"error_received raised {type(e).__name__}",
+                                        dict(own=(own_sid, own_major), sequence=[alphabet[i] for i in seq[:pos + 1]],
+                                             with_subscriber=with_subscriber)))
+                            break
+                        if s.transport.sent:
+                            res.append(("no-reply", "error_received-sends", "error_received caused a transmission",
+                                        dict(own=(own_sid, own_major), sequence=[alphabet[i] for i in seq[:pos + 1]],
+                                             with_subscriber=with_subscriber)))
+                        continue
                     f, multicast = alphabet[li]
                     s.transport.sent.clear()
                     s.calls.clear()
@@ -356,6 +373,10 @@ def replay(ctx, body):
             s = make(loop, own[0], own[1], bool(case.get("with_subscriber")))
             res = []
             for f, multicast in case["sequence"]:
+                if f == "error":
+                    s.error_received({"ConnectionRefusedError": ConnectionRefusedError, "OSError": OSError}[multicast](111, "x"))
+                    res = []
+                    continue
                 s.transport.sent.clear()
                 s.calls.clear()
                 s.datagram_received(refcodec.enc_someip(*f), ADDR, bool(multicast))
